@@ -9,14 +9,17 @@ def sh(cmd, cwd=None, **kw):
 def confirm(wt, name):
     seed = os.path.join(wt, '_seed')
     res = {}
+    try: demo = json.load(open(os.path.join(seed, 'meta.json'))).get('demo_cmd') or 'bash _seed/demo.sh'
+    except Exception: demo = 'bash _seed/demo.sh'
+    if not os.path.exists(os.path.join(seed, 'demo.sh')) and 'demo.sh' in demo: demo = 'python3 _seed/demo.py'
     # state 1: patch applied (agent leaves it applied).  make sure
     sh('git checkout -- . && git apply _seed/patch.diff', wt)
     r = sh('make -j16 2>&1 | tail -3', wt); res['build_patched'] = r.returncode
     r = sh('./test-btcdeb 2>&1 | tail -2', wt); res['tests_patched'] = r.stdout.strip().splitlines()[-1:]
-    r = sh('bash _seed/demo.sh', wt); res['demo_patched_rc'] = r.returncode; res['demo_patched_tail'] = r.stdout.strip().splitlines()[-6:]
+    r = sh(demo, wt); res['demo_patched_rc'] = r.returncode; res['demo_patched_tail'] = r.stdout.strip().splitlines()[-6:]
     sh('git checkout -- .', wt)
     r = sh('make -j16 2>&1 | tail -3', wt)
-    r = sh('bash _seed/demo.sh', wt); res['demo_clean_rc'] = r.returncode
+    r = sh(demo, wt); res['demo_clean_rc'] = r.returncode
     ok = res['demo_patched_rc'] != 0 and res['demo_clean_rc'] == 0 and any('All tests passed' in l for l in res['tests_patched'])
     res['confirmed'] = ok
     print(json.dumps(res, indent=1))
